@@ -117,6 +117,29 @@ func vf37GetBaseline(hist []*vf37Kind, http bool) *vf37Baseline {
 
 func vf37CheckHooks(x *venum.X, tr string, run *vf37Run) string {
 	var oc []string
+	// which dispatch each returned token belongs to, and how often it was ended
+	// over the WHOLE history
+	tokenUnit := map[int]int{}
+	tokenEnds := map[int]int{}
+	for _, e := range vf37Log {
+		switch e.What {
+		case "start":
+			if e.Tok >= 0 {
+				tokenUnit[e.Tok] = e.Unit
+			}
+		case "end", "end-panic":
+			if e.Tok >= 0 {
+				tokenEnds[e.Tok]++
+			}
+		}
+	}
+	for tok, n := range tokenEnds {
+		if _, known := tokenUnit[tok]; known && n > 1 {
+			u := run.Units[tokenUnit[tok]]
+			x.Failf("C37:"+tr+":"+u.Label()+":token-ended-more-than-once", "history %s: the token returned by the start of unit %d (%s %s) was passed to OnDispatchEnd %d times over the history",
+				vf37HistName(vf37Hist(run)), u.Idx, u.Role, u.Kind.Name, n)
+		}
+	}
 	for _, u := range run.Units {
 		if u.Unserved {
 			oc = append(oc, u.Role+"/"+u.Kind.Name+":unserved")
@@ -167,6 +190,19 @@ func vf37CheckHooks(x *venum.X, tr string, run *vf37Run) string {
 			case n > 1:
 				x.Failf(sig+":end-duplicated", "history %s unit %d (%s %s): OnDispatchEnd ran %d times with token %d",
 					vf37HistName(vf37Hist(run)), u.Idx, u.Role, u.Kind.Name, n, t)
+			}
+		}
+		// An end must carry the token of ITS dispatch's start. A token that a
+		// start of another dispatch returned is never acceptable — not even when
+		// this dispatch's own start panicked: that other call's token would be
+		// ended twice, and a start panic would change what another call's hook sees.
+		for _, e := range ends {
+			if e.Tok < 0 {
+				continue
+			}
+			if owner, known := tokenUnit[e.Tok]; known && owner != u.Idx {
+				x.Failf(sig+":end-with-another-calls-token", "history %s unit %d (%s %s): OnDispatchEnd ran with token %d, which the start of unit %d returned (start calls here: %d, panicked: %d)",
+					vf37HistName(vf37Hist(run)), u.Idx, u.Role, u.Kind.Name, e.Tok, owner, startCalls, startPanics)
 			}
 		}
 		if extra > 0 && startPanics == 0 {
@@ -273,7 +309,9 @@ func TestVerif_C37(t *testing.T) {
 				hook.mode, hook.k, mode = "pend", hm-4-nU, "end-panic"
 			}
 			base := vf37GetBaseline(hist, http)
+			restore := vf37IsolateGlobals()
 			run := vf37RunHistory(hist, http, &vf37Env{Hook: hook})
+			restore()
 			panicUnit := -1
 			for _, e := range vf37Log {
 				if e.What == "start-panic" || e.What == "end-panic" {
@@ -323,7 +361,9 @@ func TestVerif_C37(t *testing.T) {
 			tr = "http"
 		}
 		limit := []int{-1, 1, 2, 3}[x.Choose(4, "producer-limit")]
+		restore := vf37IsolateGlobals()
 		run := vf37RunHistory(hist, http, &vf37Env{Hook: &vf37Hook{mode: "cancel"}, ProducerLimit: limit})
+		restore()
 		oc := vf37CheckHooks(x, tr, run)
 		for _, u := range run.Units {
 			if u.Panic != nil {
